@@ -94,7 +94,7 @@ def gen_op(rng, recipe, kind, allow=None, p_each=0.3):
     if kind == "train_steps":
         return {"op": kind, "k": rng.randint(1, 3), "opt": rng.choice(["sgd", "adam"]), "lr": rng.choice([0.05, 0.2]), "mll": rng.choice(["elbo", "elbo", "pll"])}
     if kind == "perturb":
-        return {"op": kind, "seed": rng.randrange(1 << 30)}
+        return {"op": kind, "seed": rng.randrange(1 << 30), "scope": rng.choice(["all", "all", "hypers"])}
     if kind == "set_train_data":
         kinds = ["same", "targets_only", "inputs_only", "newshape"]
         if recipe["family"] == "grid":
@@ -109,7 +109,9 @@ def gen_op(rng, recipe, kind, allow=None, p_each=0.3):
         op.update({"op": kind, "site": rng.choice(["kernel", "mean", "forward"]), "k": rng.randint(1, 5)})
         return op
     if kind == "load_state_dict":
-        return {"op": kind, "seed": rng.randrange(1 << 30)}
+        # scope: which part of the state differs from the model's current state (partial changes matter: a cache owner
+        # may only look at its own subtree)
+        return {"op": kind, "seed": rng.randrange(1 << 30), "scope": rng.choice(["all", "all", "hypers", "variational", "likelihood", "one"]), "pick": rng.randrange(1 << 16)}
     if kind == "bad_load_state_dict":
         return {"op": kind, "kind": rng.choice(["missing", "unexpected", "misshaped"]), "seed": rng.randrange(1 << 30), "pick": rng.randrange(1 << 16)}
     raise core.HarnessError("unknown op kind " + kind)
@@ -262,7 +264,16 @@ def apply(live, op, out, role=""):
             obs = {"losses": torch.stack(losses)}
     elif k == "perturb":
         if M.training:
-            zoo.randomise_parameters(M, op["seed"], scale=0.5)
+            if op.get("scope") == "hypers" and live.is_var:
+                # only kernel / mean / likelihood hyper-parameters move (e.g. a hyper-parameter search around fixed q(u))
+                keep = {n: p.detach().clone() for n, p in M.named_parameters() if n.startswith("variational_strategy.")}
+                zoo.randomise_parameters(M, op["seed"], scale=0.5)
+                with torch.no_grad():
+                    for n, p in M.named_parameters():
+                        if n in keep:
+                            p.copy_(keep[n])
+            else:
+                zoo.randomise_parameters(M, op["seed"], scale=0.5)
         else:
             status = "skipped"
     elif k == "set_train_data":
@@ -340,6 +351,22 @@ def apply(live, op, out, role=""):
             with torch.no_grad():
                 donor(live.x)
         sd = dict(donor.state_dict())
+        scope = op.get("scope", "all")
+        if k == "load_state_dict" and scope != "all":
+            cur = {kk: v.detach().clone() for kk, v in M.state_dict().items()}
+            pkeys = sorted(n for n, _ in M.named_parameters())
+            if scope == "hypers":
+                chosen = [kk for kk in pkeys if not kk.startswith("variational_strategy.")]
+            elif scope == "variational":
+                chosen = [kk for kk in pkeys if kk.startswith("variational_strategy.")]
+            elif scope == "likelihood":
+                chosen = [kk for kk in pkeys if kk.startswith("likelihood.")]
+            else:
+                chosen = [pkeys[op.get("pick", 0) % len(pkeys)]] if pkeys else []
+            for kk in chosen:
+                if kk in sd and sd[kk].shape == cur[kk].shape:
+                    cur[kk] = sd[kk].detach().clone()
+            sd = cur
         if k == "bad_load_state_dict":
             keys = sorted(sd)
             pick = keys[op["pick"] % len(keys)]
